@@ -597,11 +597,11 @@ pub fn check_e2(def: &E2Def, tier: &str, seed: u64) -> i32 {
         }
         return 1;
     }
-    if !m.inconclusive.is_empty() || m.stats.get("programs").copied().unwrap_or(0) == 0 {
-        for x in &m.inconclusive {
-            eprintln!("inconclusive: {x}");
-        }
+    for x in &m.inconclusive {
+        eprintln!("inconclusive: {x}");
+    }
+    if m.stats.get("programs").copied().unwrap_or(0) == 0 {
         return 2;
     }
-    0
+    crate::driver::exit_code_for_inconclusive(&m)
 }
